@@ -35,6 +35,12 @@ import (
 //                                                Lean model (to4 to16 masksize ipnetcontains
 //                                                addrfromslice unmap prefixfrom prefixcontains
 //                                                compare sockaddrport cidrmask)
+//   C12.std.sortfunc <cmp> <v>,<v>,…             the real slices.SortFunc against the Lean model of
+//                                                pdqsortCmpFunc (Go/Sort.lean): elements are tagged
+//                                                with their position, the answer is <v>:<tag>,…;
+//                                                cmp = num rev mod3 zero (strict weak orders), rps neg
+//                                                one tagx le (inconsistent), p4 p6 (PreferIPv4/6 on
+//                                                address tokens)
 
 // fail12 is fail with the message forced to printable ASCII (zones may hold any bytes).
 func fail12(key, format string, a ...any) string {
@@ -625,6 +631,8 @@ func evalC12(c string) Result {
 		res.Impl = signC12(parseAddrTok(f[1]).Compare(parseAddrTok(f[2])))
 	case "std.cidrmask":
 		res.Impl = hx(net.CIDRMask(atoi(f[1]), atoi(f[2])*8))
+	case "std.sortfunc":
+		res.Impl = evalSortFunc(f[1], f[2])
 	case "std.sockaddrport":
 		ip, port, zone := parseSliceTok(f[1]), atoi(f[2]), string(unhx(f[3]))
 		t := (&net.TCPAddr{IP: ip, Port: port, Zone: zone}).AddrPort()
@@ -637,6 +645,295 @@ func evalC12(c string) Result {
 		panic("bad op " + f[0])
 	}
 	return res
+}
+
+// ---------------------------------------------------------------- slices.SortFunc itself
+
+// natCmpC12 are the comparators of C12.std.sortfunc on (value, tag) pairs; the same
+// functions are written in Driver/C12.lean (natCmp).
+func natCmpC12(id string) func(a, b [2]int) int {
+	switch id {
+	case "num":
+		return func(a, b [2]int) int { return a[0] - b[0] }
+	case "rev":
+		return func(a, b [2]int) int { return b[0] - a[0] }
+	case "mod3":
+		return func(a, b [2]int) int { return a[0]%3 - b[0]%3 }
+	case "rps":
+		return func(a, b [2]int) int {
+			switch {
+			case a[0]%3 == b[0]%3:
+				return 0
+			case (a[0]%3+1)%3 == b[0]%3:
+				return -1
+			default:
+				return 1
+			}
+		}
+	case "neg":
+		return func(a, b [2]int) int { return -1 }
+	case "one":
+		return func(a, b [2]int) int { return 1 }
+	case "zero":
+		return func(a, b [2]int) int { return 0 }
+	case "tagx":
+		return func(a, b [2]int) int { return (a[0]+b[1])%5 - 2 }
+	case "le": // not irreflexive: equal elements are "less" than each other
+		return func(a, b [2]int) int {
+			if a[0] <= b[0] {
+				return -1
+			}
+			return 1
+		}
+	}
+	panic("bad comparator " + id)
+}
+
+// evalSortFunc runs the real slices.SortFunc on the position-tagged elements.
+func evalSortFunc(id, listTok string) string {
+	if listTok == "-" {
+		return "-"
+	}
+	items := strings.Split(listTok, ",")
+	out := make([]string, len(items))
+	if id == "p4" || id == "p6" {
+		type el struct {
+			a netip.Addr
+			t int
+		}
+		l := make([]el, len(items))
+		for i, t := range items {
+			l[i] = el{parseAddrTok(t), i}
+		}
+		pf := preferFn(id[1:])
+		slices.SortFunc(l, func(a, b el) int { return pf(a.a, b.a) })
+		for i, e := range l {
+			out[i] = addrTok(e.a) + ":" + strconv.Itoa(e.t)
+		}
+		return strings.Join(out, ",")
+	}
+	l := make([][2]int, len(items))
+	for i, t := range items {
+		l[i] = [2]int{atoi(t), i}
+	}
+	slices.SortFunc(l, natCmpC12(id))
+	for i, e := range l {
+		out[i] = strconv.Itoa(e[0]) + ":" + strconv.Itoa(e[1])
+	}
+	return strings.Join(out, ",")
+}
+
+// genSortVals: n values in one of the shapes that steer pdqsort through its branches
+// (sorted / reversed: the hints, reverseRange and partialInsertionSort; all equal and few
+// distinct: partitionEqual; organ pipe, sawtooth: unbalanced partitions, breakPatterns and the
+// heapsort fallback; one or two elements out of place: the shifting of partialInsertionSort).
+func genSortVals(rng *rand.Rand, n int) []int {
+	v := make([]int, n)
+	k := pick(rng, 2, 3, 4, 7, 10, n/2+1, n+1, 4*n+1)
+	switch rng.IntN(17) {
+	case 0: // sorted
+		for i := range v {
+			v[i] = i
+		}
+	case 1: // reverse sorted
+		for i := range v {
+			v[i] = n - i
+		}
+	case 2: // all equal
+		c := rng.IntN(5)
+		for i := range v {
+			v[i] = c
+		}
+	case 3: // organ pipe
+		for i := range v {
+			v[i] = min(i, n-1-i)
+		}
+	case 4: // sawtooth
+		for i := range v {
+			v[i] = i % k
+		}
+	case 5, 11: // sorted with few distinct values, possibly a few elements displaced
+		for i := range v {
+			v[i] = i * k / (n + 1)
+		}
+		for c := rng.IntN(3); c > 0 && n > 0; c-- {
+			i, j := rng.IntN(n), rng.IntN(n)
+			v[i], v[j] = v[j], v[i]
+		}
+	case 6: // sorted, a few elements displaced
+		for i := range v {
+			v[i] = i
+		}
+		for c := rng.IntN(4) + 1; c > 0 && n > 0; c-- {
+			i, j := rng.IntN(n), rng.IntN(n)
+			v[i], v[j] = v[j], v[i]
+		}
+	case 7: // reverse sorted, a few elements displaced
+		for i := range v {
+			v[i] = n - i
+		}
+		for c := rng.IntN(3) + 1; c > 0 && n > 0; c-- {
+			i, j := rng.IntN(n), rng.IntN(n)
+			v[i], v[j] = v[j], v[i]
+		}
+	case 8: // two sorted runs
+		m := rng.IntN(n + 1)
+		for i := range v {
+			if i < m {
+				v[i] = 2 * i
+			} else {
+				v[i] = 2*(i-m) + 1
+			}
+		}
+	case 9: // sorted, one small element a few places from the front / one large one near the end
+		for i := range v {
+			v[i] = i + 1
+		}
+		if n > 1 {
+			if rng.IntN(2) == 0 {
+				v[min(n-1, 1+rng.IntN(4))] = rng.IntN(2)
+			} else {
+				v[max(0, n-2-rng.IntN(4))] = n + 1
+			}
+		}
+	case 10: // sorted, a few adjacent pairs exchanged (also the first and the last pair)
+		for i := range v {
+			v[i] = i
+		}
+		for c := rng.IntN(5) + 1; c > 0 && n > 1; c-- {
+			i := pick(rng, 0, n-2, rng.IntN(n-1))
+			v[i], v[i+1] = v[i+1], v[i]
+		}
+	case 12: // McIlroy's adversary: drives pdqsort into its heapsort fallback under a consistent order
+		return antiQuicksort(n)
+	default: // random with k distinct values
+		for i := range v {
+			v[i] = rng.IntN(k)
+		}
+	}
+	return v
+}
+
+// antiQuicksort builds, by M. D. McIlroy's "A Killer Adversary for Quicksort", a permutation of
+// 0..n-1 on which slices.SortFunc keeps choosing bad pivots: the values are decided lazily while
+// the real SortFunc runs, so that every pivot turns out to be among the smallest elements of
+// its range.  Sorting the frozen values again makes the same comparisons, exhausts `limit`
+// and ends in heapSortCmpFunc on long ranges of distinct values.
+func antiQuicksort(n int) []int {
+	gas := n
+	val := make([]int, n)
+	for i := range val {
+		val[i] = gas
+	}
+	nsolid, candidate := 0, 0
+	items := make([]int, n)
+	for i := range items {
+		items[i] = i
+	}
+	slices.SortFunc(items, func(x, y int) int {
+		if val[x] == gas && val[y] == gas {
+			if x == candidate {
+				val[x] = nsolid
+			} else {
+				val[y] = nsolid
+			}
+			nsolid++
+		}
+		if val[x] == gas {
+			candidate = x
+		} else if val[y] == gas {
+			candidate = y
+		}
+		return val[x] - val[y]
+	})
+	for i := range val {
+		if val[i] == gas {
+			val[i] = nsolid
+			nsolid++
+		}
+	}
+	return val
+}
+
+func intListTok(v []int) string {
+	if len(v) == 0 {
+		return "-"
+	}
+	ts := make([]string, len(v))
+	for i, x := range v {
+		ts[i] = strconv.Itoa(x)
+	}
+	return strings.Join(ts, ",")
+}
+
+var sortCmpIDs = []string{"num", "num", "num", "num", "rev", "mod3", "mod3", "zero", "rps", "rps", "neg", "one", "tagx", "tagx", "le", "le"}
+
+// genSortFunc: the cases of the tie of the pdqsort model.
+func genSortFunc(rng *rand.Rand, tier string, add func(format string, a ...any)) {
+	scale := 1
+	if tier == "thorough" {
+		scale = 40
+	}
+	nat := func(n int) { add("C12.std.sortfunc %s %s", pick(rng, sortCmpIDs...), intListTok(genSortVals(rng, n))) }
+	// 0..12: insertion sort only
+	for n := 0; n <= 12; n++ {
+		for i := 0; i < 40*scale; i++ {
+			nat(n)
+		}
+	}
+	// 13..50: one or two levels of partitioning, median of three
+	for i := 0; i < 800*scale; i++ {
+		nat(13 + rng.IntN(38))
+	}
+	// the lengths at which the algorithm switches: maxInsertion = 12, shortestNinther =
+	// shortestShifting = 50, and the powers of two (limit = bits.Len(n))
+	for _, n := range []int{13, 14, 16, 17, 31, 32, 33, 48, 49, 50, 51, 52, 63, 64, 65, 127, 128, 129} {
+		for i := 0; i < 25*scale; i++ {
+			nat(n)
+		}
+	}
+	// 50..2000: ninther, shifting in partialInsertionSort, breakPatterns, heapsort fallback
+	for i := 0; i < 700*scale; i++ {
+		n := 50 + rng.IntN(150)
+		switch rng.IntN(12) {
+		case 0, 1, 2:
+			n = 200 + rng.IntN(300)
+		case 3:
+			n = 500 + rng.IntN(1501)
+		}
+		nat(n)
+	}
+	// adversarial inputs: heapSortCmpFunc on long ranges under a consistent order
+	for i := 0; i < 80*scale; i++ {
+		n := 40 + rng.IntN(160)
+		if rng.IntN(3) == 0 {
+			n = 200 + rng.IntN(600)
+		}
+		v := antiQuicksort(n)
+		if rng.IntN(3) == 0 {
+			for j := range v {
+				v[j] = n - 1 - v[j]
+			}
+			add("C12.std.sortfunc rev %s", intListTok(v))
+		} else {
+			add("C12.std.sortfunc num %s", intListTok(v))
+		}
+	}
+	// golibs' comparators on address lists
+	for i := 0; i < 200*scale; i++ {
+		n := pick(rng, rng.IntN(13), 13+rng.IntN(38), 50+rng.IntN(100))
+		l := make([]netip.Addr, n)
+		for j := range l {
+			l[j] = genAddr(rng)
+		}
+		switch rng.IntN(4) {
+		case 0:
+			slices.SortFunc(l, netutil.PreferIPv4)
+		case 1:
+			slices.SortFunc(l, netutil.PreferIPv6)
+		}
+		add("C12.std.sortfunc %s %s", pick(rng, "p4", "p6"), addrListTok(l))
+	}
 }
 
 // ---------------------------------------------------------------- generators
@@ -928,6 +1225,7 @@ func genC12(rng *rand.Rand, tier string) (cases []string) {
 		}
 		add("C12.std.ipnetcontains %s %s %s", sliceTok(ip), sliceTok(mask), sliceTok(x))
 	}
+	genSortFunc(rng, tier, add)
 	return cases
 }
 
@@ -1004,7 +1302,7 @@ func candsC12(c string) (res []string) {
 		}
 	case "prefer":
 		toks, sliceToks = []int{2, 3}, false
-	case "sort":
+	case "sort", "std.sortfunc":
 		list = 2
 	default:
 		for i := 1; i < len(f); i++ {
